@@ -192,3 +192,27 @@ def scrape_div_guard(cbuiltins):
         else:
             out[name] = True      # after the checked block: still unconditional
     return out
+
+
+def scrape_shift_fast_path(cbuiltins):
+    """For operators.shl/shr/asr: which width the compile-time-constant count is compared against before the
+    plain C shift is used: True = the shifted operand's type, False = something else (the count's own type).
+    One level of local helper functions called from the condition is followed."""
+    helpers = dict(re.findall(r"\nlocal function (\w+)\((?:[^)]*)\)(.*?)\nend\n", cbuiltins, re.S))
+    out = {}
+    for name in ("shl", "shr", "asr"):
+        m = re.search(r"function cbuiltins\.operators\.%s\(_, node, emitter, lattr, rattr, lname, rname\)(.*?)\nend\n" % name, cbuiltins, re.S)
+        if not m:
+            raise RuntimeError("cbuiltins.lua: operators.%s not found" % name)
+        c = re.search(r"\n  if (.*?) then\n", m.group(1), re.S)
+        if not c:
+            raise RuntimeError("cbuiltins.lua: fast-path condition of operators.%s not found" % name)
+        text = c.group(1)
+        for h, body in helpers.items():
+            if re.search(r"\b%s\(" % re.escape(h), text):
+                text += "\n" + body
+        widths = re.findall(r"(lattr\.type|ltype|rattr\.type|rtype|type)\.bitsize", text)
+        if not widths:
+            raise RuntimeError("cbuiltins.lua: operators.%s: no width in the fast-path condition: %s" % (name, text[:200]))
+        out[name] = all(w in ("lattr.type", "ltype") for w in widths)
+    return out
